@@ -5,7 +5,8 @@
 -/
 import EinoV.Model.C20Builder
 import EinoV.Proofs.C20
-import EinoV.Proofs.C20Sim
+import EinoV.Proofs.C20Ends
+import EinoV.Proofs.C20Kahn
 import EinoV.Gen.FactsC20
 import EinoV.Expected.C20
 
@@ -262,26 +263,37 @@ end rejects
 
 /-! ## the same construction sequence gives the same outcome on every attempt -/
 
-/-- **outcome_order_free_partial.**  Go iterates `g.toValidateMap` in a random order every
-    time `updateToValidateMap` runs (once per AddEdge, several times per AddBranch), and the
-    inferred pass-through types, the pending entries and therefore every later accept/reject
-    decision depend on what that loop does.  For every sequence of public Graph-API calls and
-    any two (arbitrary, state-dependent) iteration orders of that map, every call has the same
-    outcome class – ok / error / ErrGraphCompiled – in both runs.
-
-    Full statement (not proved): the same for two orders that also differ in how
-    `for endNode := range branch.endNodes` and `for node := range m` (validateDAG) iterate,
-    i.e. without the `OrdAgree` hypothesis.  What is missing: commutation of the per-end-node
-    steps of addBranch (the machinery – `update_sim`, `Reach` – is in Proofs/C20Order.lean)
-    and the confluence of Kahn's loop.  The harness covers those two orders empirically
-    (20 fresh executions of every sequence). -/
-theorem outcome_order_free_partial (im : Impl) (ord ord' : Ord) (hv : ord.Valid) (hv' : ord'.Valid)
-    (ha : OrdAgree ord ord') (cmp : Cmp) (inT outT : Ty) (st : Option Nat) (ops : List Op)
+/-- **outcome_order_free.**  Go iterates `g.toValidateMap` in a random order every time
+    `updateToValidateMap` runs (once per AddEdge, several times per AddBranch),
+    `branch.endNodes` in a random order in every AddBranch, and the counter map of
+    `validateDAG` in a random order at Compile; the inferred pass-through types, the pending
+    entries and therefore every later accept/reject decision depend on what those loops do.
+    For every sequence of public Graph-API calls and any two iteration orders – arbitrary,
+    state-dependent, independent for the three maps – every call has the same outcome class
+    (ok / error / ErrGraphCompiled) in both runs. -/
+theorem outcome_order_free (im : Impl) (ord ord' : Ord) (hv : ord.Valid) (hv' : ord'.Valid)
+    (cmp : Cmp) (inT outT : Ty) (st : Option Nat) (ops : List Op)
     (hops : ∀ op ∈ ops, op.isGraphApi = true) :
     (run srcFacts im ord (Builder.new cmp inT outT st) ops).2.1.map Outcome.cls =
     (run srcFacts im ord' (Builder.new cmp inT outT st) ops).2.1.map Outcome.cls :=
-  run_order_free srcFacts srcFacts_guarded (by decide) (by decide) (by decide) im ord ord' hv hv' ha ops _ _ hops
+  run_order_free srcFacts srcFacts_guarded (by decide) (by decide) (by decide) im ord ord' hv hv' ops _ _ hops
     (Or.inl ⟨Sim.refl _ rfl, Inv_new im cmp inT outT st, Inv_new im cmp inT outT st, KeysOK_new cmp inT outT st⟩)
+
+/-- **kahn_sound / kahn_complete.**  Whatever order Go's map iteration takes, `validateDAG`
+    answers "valid" exactly when every node can be scheduled: all its control predecessors
+    (edge sources and branch starts, START excluded) can, inductively. -/
+theorem kahn_sound_complete (b : Builder) (hk : KeysOK b) (ord : Ord) (hv : ord.Valid) :
+    validateDAG b ord = true ↔ ∀ k ∈ b.nodes.map (·.key), Sched b k :=
+  validateDAG_iff b hk ord hv.kahn
+
+/-- **rejects_cycles.**  A node on a cycle of control edges / branch targets makes
+    `validateDAG` answer "invalid" – Compile in all-predecessor mode then fails
+    (`rejects_dag_violations`). -/
+theorem rejects_cycles (b : Builder) (hk : KeysOK b) (ord : Ord) (hv : ord.Valid)
+    (k : Key) (hkn : k ∈ b.nodes.map (·.key)) (hc : PredTC b k k) : validateDAG b ord = false := by
+  rcases h : validateDAG b ord
+  · rfl
+  · exact absurd hc ((kahn_sound_complete b hk ord hv).mp h k hkn).no_cycle
 
 /-- the decision whether `updateToValidateMap` fails, and the types it leaves behind, are
     functions of the state it starts from – for every iteration order (no agreement needed) -/
@@ -389,6 +401,13 @@ theorem compile_panics_without_type_check :
        .edge START "a" false false none, .edge "a" END false false none, .compile copts]).2.1
       = [.ok, .ok, .ok, .ok, .panic] := by
   decide
+
+/-- a two-node cycle a → b → a: Kahn's loop rejects it, Compile in all-predecessor mode fails -/
+example : (run srcFacts exImpl Ord.id b0
+    [lam "a" (.conc 0) (.conc 0), lam "b" (.conc 0) (.conc 0), .edge START "a" false false none,
+     .edge "a" "b" false false none, .edge "b" "a" false false none, .edge "b" END false false none,
+     .compile { copts with trigger := .allPred }]).2.1
+    = [.ok, .ok, .ok, .ok, .ok, .ok, .fresh .dagLoop] := by decide
 
 /-- Without the deferred store the first error would not stick. -/
 theorem error_not_sticky_without_store :
